@@ -147,3 +147,255 @@ Proof.
   destruct (Hloop rules Hlhs (nts, rules) _ (0, []) (0, false) Hverts0) as [r' [e' H]].
   subst st0. rewrite H. reflexivity.
 Qed.
+
+(** * scc *)
+Ltac scc_norm :=
+  cbv beta iota zeta delta [set_gen_scc_m0 set_gen_scc_n0 set_gen_scc_d0 set_gen_scc_d1 set_gen_scc_l0
+                            set_gen_scc_s0 set_gen_scc_c0 set_gen_scc_n1
+                            gen_scc_m0 gen_scc_n0 gen_scc_d0 gen_scc_d1 gen_scc_l0 gen_scc_s0 gen_scc_c0 gen_scc_n1
+                            set_gen_scc_f0_n0 set_gen_scc_f0_n1 set_gen_scc_f0_k0
+                            gen_scc_f0_n0 gen_scc_f0_n1 gen_scc_f0_k0].
+
+Lemma perm_mem a b x : Permutation a b -> mem a x = mem b x.
+Proof.
+  intros H. destruct (mem a x) eqn:Ea, (mem b x) eqn:Eb; try reflexivity.
+  - apply SCC_checker.mem_In in Ea. apply (Permutation_in _ H) in Ea. apply SCC_checker.mem_In in Ea. congruence.
+  - apply SCC_checker.mem_In in Eb. apply (Permutation_in _ (Permutation_sym H)) in Eb. apply SCC_checker.mem_In in Eb. congruence.
+Qed.
+
+Lemma get_getd m k : get m k <> None -> get m k = Some (getd m k).
+Proof. unfold getd. destruct (get m k); [reflexivity | congruence]. Qed.
+
+Lemma get_set_mono m k v x : get m x <> None -> get (set m k v) x <> None.
+Proof.
+  intros H. destruct (Nat.eq_dec x k) as [->|Hn].
+  - rewrite get_set_same. discriminate.
+  - rewrite get_set_other by exact Hn. exact H.
+Qed.
+
+(** the generated frame of [scc] against the hand model's state: same counter, maps and
+    components; the Python list [stack] is the hand model's stack reversed; the set [onstack]
+    is a permutation of the stack; [j] is the loop variable of [scc]'s own [for] *)
+Definition R (g : graph) (o : gen_scc_frame) (s : st) : Prop :=
+  exists S j, o = mk_gen_scc g (idx s) (indexof s) (lowlink s) (rev (stack s)) S (comps s) j
+              /\ Permutation S (stack s).
+
+(** what makes every dictionary read of the generated code succeed *)
+Definition J (s : st) : Prop :=
+  NoDup (stack s) /\ (forall x, In x (stack s) -> vis s x) /\ (forall x, vis s x -> get (lowlink s) x <> None).
+
+Definition ext (v : nat) (s s' : st) : Prop :=
+  (exists s2, stack s' = s2 ++ stack s) /\ (forall x, vis s x -> vis s' x) /\ vis s' v.
+
+Definition sim_spec (g : graph) (fuel : nat) : Prop :=
+  forall v s s' o, In v (verts g) -> R g o s -> J s -> ~ vis s v ->
+    visit fuel g v s = Some s' ->
+    exists o', gen_scc_f0 fuel o v = Some o' /\ R g o' s' /\ J s' /\ ext v s s'.
+
+Lemma J_set_low s v x : J s -> J (set_low s v x).
+Proof.
+  intros (H1 & H2 & H3). split; [exact H1 | split; [exact H2|]].
+  intros y Hy. cbn [set_low lowlink]. apply get_set_mono. apply H3. exact Hy.
+Qed.
+
+Lemma J_push s v : J s -> ~ vis s v -> J (push v s).
+Proof.
+  intros (H1 & H2 & H3) Hv. split; [|split].
+  - cbn [push stack]. constructor; [|exact H1]. intros H. exact (Hv (H2 _ H)).
+  - intros x Hx. apply vis_push. cbn [push stack] in Hx. destruct Hx as [->|Hx]; [left; reflexivity | right; auto].
+  - intros x Hx. apply vis_push in Hx. cbn [push lowlink].
+    destruct (Nat.eq_dec x v) as [->|Hn].
+    + rewrite get_set_same. discriminate.
+    + apply get_set_mono. apply H3. tauto.
+Qed.
+
+Section Sim.
+Variable g : graph.
+Hypothesis Hc : closed g = true.
+
+Lemma sim_step fuel : sim_spec g fuel -> sim_spec g (S fuel).
+Proof.
+  intros IHf v s s' o Hv (S0 & j0 & -> & HP) HJ Hnv Hvis.
+  rewrite visit_S in Hvis.
+  destruct (go_body (visit fuel g) v (succs g v) (push v s)) as [s1|] eqn:Hgo; [|discriminate].
+  cbn [gen_scc_f0]. scc_norm.
+  rewrite (py_dget_succs g v Hv).
+  assert (HnS : py_mem S0 v = false).
+  { apply py_mem_false. intros H. apply (Permutation_in _ HP) in H. destruct HJ as (_ & H2 & _). exact (Hnv (H2 _ H)). }
+  unfold py_sadd at 1. rewrite HnS.
+  match goal with |- context [py_for ?B (succs g v) _] => set (body := B) end.
+  (* the successor loop *)
+  assert (Hloop : forall ws, incl ws (verts g) -> forall sc sc' S1 j lw lk,
+            Permutation S1 (stack sc) -> J sc ->
+            (exists s3, stack sc = s3 ++ v :: stack s) -> (forall x, vis (push v s) x -> vis sc x) ->
+            go_body (visit fuel g) v ws sc = Some sc' ->
+            exists S1' j' lw',
+              py_for body ws (mk_gen_scc g (idx sc) (indexof sc) (lowlink sc) (rev (stack sc)) S1 (comps sc) j,
+                              mk_gen_scc_f0 v lw lk)
+              = Some (mk_gen_scc g (idx sc') (indexof sc') (lowlink sc') (rev (stack sc')) S1' (comps sc') j',
+                      mk_gen_scc_f0 v lw' lk)
+              /\ Permutation S1' (stack sc') /\ J sc'
+              /\ (exists s3, stack sc' = s3 ++ v :: stack s) /\ (forall x, vis (push v s) x -> vis sc' x)).
+  { induction ws as [|w ws IHws]; intros Hincl sc sc' S1 j lw lk HP1 HJ1 HK1 HM1 Hg.
+    - cbn in Hg. injection Hg as <-. exists S1, j, lw. cbn [py_for]. auto.
+    - rewrite go_body_cons in Hg.
+      assert (Hvv : vis sc v). { apply HM1. apply vis_push. left. reflexivity. }
+      assert (Hlv : get (lowlink sc) v = Some (getd (lowlink sc) v)).
+      { apply get_getd. destruct HJ1 as (_ & _ & H3). apply H3. exact Hvv. }
+      assert (Hincl' : incl ws (verts g)). { intros x Hx. apply Hincl. right. exact Hx. }
+      cbn [py_for]. unfold body at 1. scc_norm.
+      rewrite py_dmem_get.
+      destruct (get (indexof sc) w) as [iw|] eqn:Ew.
+      + cbn [negb]. rewrite py_mem_mem, (perm_mem _ _ w HP1).
+        destruct (mem (stack sc) w) eqn:Em.
+        * rewrite !py_dget_get, Hlv, Ew, py_dset_set.
+          specialize (IHws Hincl' (set_low sc v (Nat.min (getd (lowlink sc) v) iw)) sc' S1 j w lk).
+          cbn [set_low idx indexof lowlink stack comps] in IHws.
+          apply IHws; [exact HP1 | apply J_set_low; exact HJ1 | exact HK1 | exact HM1 | exact Hg].
+        * apply IHws; [exact Hincl' | exact HP1 | exact HJ1 | exact HK1 | exact HM1 | exact Hg].
+      + cbn [negb].
+        destruct (visit fuel g w sc) as [sw|] eqn:Hw; [|discriminate].
+        assert (Hwin : In w (verts g)). { apply Hincl. left. reflexivity. }
+        assert (HRw : R g (mk_gen_scc g (idx sc) (indexof sc) (lowlink sc) (rev (stack sc)) S1 (comps sc) j) sc).
+        { exists S1, j. split; [reflexivity | exact HP1]. }
+        assert (Hnw : ~ vis sc w). { unfold vis. rewrite Ew. tauto. }
+        destruct (IHf w sc sw _ Hwin HRw HJ1 Hnw Hw)
+          as (o' & Hcall & (S2 & j2 & -> & HP2) & HJ2 & (s2 & Hst2) & Hmono2 & Hvw).
+        rewrite Hcall. scc_norm.
+        assert (Hlv2 : get (lowlink sw) v = Some (getd (lowlink sw) v)).
+        { apply get_getd. destruct HJ2 as (_ & _ & H3). apply H3. apply Hmono2. exact Hvv. }
+        assert (Hlw2 : get (lowlink sw) w = Some (getd (lowlink sw) w)).
+        { apply get_getd. destruct HJ2 as (_ & _ & H3). apply H3. exact Hvw. }
+        rewrite !py_dget_get, Hlv2, Hlw2, py_dset_set.
+        specialize (IHws Hincl' (set_low sw v (Nat.min (getd (lowlink sw) v) (getd (lowlink sw) w))) sc' S2 j2 w lk).
+        cbn [set_low idx indexof lowlink stack comps] in IHws.
+        apply IHws; [exact HP2 | apply J_set_low; exact HJ2 | | | exact Hg].
+        * destruct HK1 as [s3 Hs3]. exists (s2 ++ s3). rewrite Hst2, Hs3, app_assoc. reflexivity.
+        * intros x Hx. apply Hmono2. apply HM1. exact Hx. }
+  destruct (Hloop (succs g v) (fun x Hx => closed_succs g Hc v x Hx) (push v s) s1 (S0 ++ [v]) j0 0 [])
+    as (S1 & j1 & lw1 & Hfor & HP1 & HJ1 & (s3 & Hs3) & HM1); auto.
+  { cbn [push stack]. eapply perm_trans; [apply Permutation_sym; apply Permutation_cons_append | apply perm_skip; exact HP]. }
+  { apply J_push; assumption. }
+  { exists []. reflexivity. }
+  cbn [push idx indexof lowlink stack comps rev] in Hfor.
+  rewrite !py_dset_set, Nat.add_1_r. rewrite Hfor. scc_norm.
+  assert (Hvv : vis s1 v). { apply HM1. apply vis_push. left. reflexivity. }
+  assert (Hlv : get (lowlink s1) v = Some (getd (lowlink s1) v)).
+  { apply get_getd. destruct HJ1 as (_ & _ & H3). apply H3. exact Hvv. }
+  assert (Hiv : get (indexof s1) v = Some (getd (indexof s1) v)).
+  { apply get_getd. exact Hvv. }
+  rewrite !py_dget_get, Hlv, Hiv.
+  unfold finish in Hvis.
+  assert (Hmono : forall x, vis s x -> vis s1 x).
+  { intros x Hx. apply HM1. apply vis_push. right. exact Hx. }
+  destruct (Nat.eqb (getd (lowlink s1) v) (getd (indexof s1) v)) eqn:Eroot.
+  - (* v is a root: pop the component *)
+    assert (Hnd : NoDup (s3 ++ v :: stack s)). { rewrite <- Hs3. apply HJ1. }
+    assert (Hv3 : ~ In v s3).
+    { intros H. apply NoDup_remove_2 in Hnd. apply Hnd. apply in_or_app. left. exact H. }
+    rewrite Hs3, (pop_until_split v s3 (stack s) Hv3) in Hvis. injection Hvis as <-.
+    match goal with |- context [py_while _ ?C ?B _] => set (wcond := C); set (wbody := B) end.
+    assert (Hwhile : forall s2 r C S2 n lw i d0 d1 cs j,
+              NoDup (s2 ++ v :: r) -> (forall x, In x (s2 ++ [v]) -> ~ In x C) ->
+              Permutation S2 (s2 ++ v :: r) -> length s2 + 2 <= n ->
+              exists S2' lw',
+                py_while n wcond wbody (mk_gen_scc g i d0 d1 (rev (s2 ++ v :: r)) S2 cs j, mk_gen_scc_f0 v lw C)
+                = Some (mk_gen_scc g i d0 d1 (rev r) S2' cs j, mk_gen_scc_f0 v lw' (C ++ s2 ++ [v]))
+                /\ Permutation S2' r).
+    { induction s2 as [|w s2 IH2]; intros r C S2 n lw i d0 d1 cs j Hnd2 Hdis HP2 Hn.
+      - destruct n as [|[|n]]; [cbn in Hn; lia | cbn in Hn; lia |].
+        cbn [py_while]. unfold wcond at 1, wbody at 1. scc_norm.
+        assert (HvC : py_mem C v = false). { apply py_mem_false. apply Hdis. left. reflexivity. }
+        rewrite HvC. cbn [negb app rev].
+        rewrite py_pop_snoc.
+        destruct (py_sremove_perm S2 v) as [S2' [Hr Hp]].
+        { apply (Permutation_in _ (Permutation_sym HP2)). left. reflexivity. }
+        rewrite Hr. unfold py_kadd. rewrite HvC.
+        unfold wcond at 1. scc_norm.
+        assert (HvC' : py_mem (C ++ [v]) v = true). { apply py_mem_In. apply in_or_app. right. left. reflexivity. }
+        rewrite HvC'. cbn [negb]. exists S2', v. split; [reflexivity|].
+        apply Permutation_cons_inv with (a := v). eapply perm_trans; [apply Permutation_sym; exact Hp | exact HP2].
+      - destruct n as [|n]; [cbn in Hn; lia|].
+        cbn [py_while]. unfold wcond at 1, wbody at 1. scc_norm.
+        assert (HvC : py_mem C v = false). { apply py_mem_false. apply Hdis. apply in_or_app. right. left. reflexivity. }
+        assert (HwC : py_mem C w = false). { apply py_mem_false. apply Hdis. left. reflexivity. }
+        rewrite HvC. cbn [negb app rev].
+        rewrite py_pop_snoc.
+        destruct (py_sremove_perm S2 w) as [S2' [Hr Hp]].
+        { apply (Permutation_in _ (Permutation_sym HP2)). left. reflexivity. }
+        rewrite Hr. unfold py_kadd. rewrite HwC.
+        cbn [app] in Hnd2. inversion Hnd2 as [|? ? Hw Hnd2']; subst.
+        destruct (IH2 r (C ++ [w]) S2' n w i d0 d1 cs j) as (S3 & lw' & Hwh & HP3); auto.
+        + intros x Hx Hc'. apply in_app_or in Hc'. destruct Hc' as [Hc'|[<-|[]]].
+          * apply (Hdis x); [right; exact Hx | exact Hc'].
+          * apply Hw. apply in_app_or in Hx. apply in_or_app. destruct Hx as [Hx|[<-|[]]]; [left; exact Hx | right; left; reflexivity].
+        + apply Permutation_cons_inv with (a := w). eapply perm_trans; [apply Permutation_sym; exact Hp | exact HP2].
+        + cbn in Hn. lia.
+        + exists S3, lw'. rewrite Hwh. split; [|exact HP3].
+          rewrite <- app_assoc. reflexivity. }
+    destruct (Hwhile s3 (stack s) [] S1 (Datatypes.S (length (rev (s3 ++ v :: stack s)))) lw1
+                     (idx s1) (indexof s1) (lowlink s1) (comps s1) j1) as (S2 & lw2 & Hwh & HP2); auto.
+    { rewrite <- Hs3. exact HP1. }
+    { rewrite rev_length, app_length. cbn [length]. lia. }
+    rewrite Hs3. rewrite Hwh. scc_norm. cbn [app].
+    eexists. split; [reflexivity|]. split; [|split; [|split; [|split]]].
+    + exists S2, j1. cbn [idx indexof lowlink stack comps]. split; [reflexivity | exact HP2].
+    + destruct HJ1 as (_ & H2 & H3). split; [|split]; cbn [stack]; unfold vis; cbn [indexof lowlink].
+      * apply NoDup_app_iff in Hnd. destruct Hnd as (_ & Hnd & _). inversion Hnd; assumption.
+      * intros x Hx. apply Hmono. apply HJ. exact Hx.
+      * exact H3.
+    + exists []. reflexivity.
+    + intros x Hx. unfold vis. cbn [indexof]. apply Hmono. exact Hx.
+    + unfold vis. cbn [indexof]. exact Hvv.
+  - injection Hvis as <-.
+    eexists. split; [reflexivity|]. split; [|split; [|split; [|split]]].
+    + exists S1, j1. split; [reflexivity | exact HP1].
+    + exact HJ1.
+    + exists (s3 ++ [v]). rewrite Hs3, <- app_assoc. reflexivity.
+    + exact Hmono.
+    + exact Hvv.
+Qed.
+
+Lemma sim_all fuel : sim_spec g fuel.
+Proof.
+  induction fuel as [|fuel IH]; [|exact (sim_step fuel IH)].
+  intros v s s' o _ _ _ _ H. discriminate.
+Qed.
+
+Theorem gen_scc_refines_closed : gen_scc g = scc g.
+Proof.
+  destruct (tarjan_partition g Hc) as [cs [Hs _]]. rewrite Hs.
+  unfold scc in Hs.
+  destruct (scc_loop (S (length g)) g (verts g) init_st) as [sf|] eqn:Hl; [|discriminate].
+  injection Hs as <-.
+  unfold gen_scc, gen_scc_fuel. scc_norm.
+  match goal with |- context [py_for ?B _ _] => set (body := B) end.
+  assert (Hloop : forall vs, incl vs (verts g) -> forall s s' S1 j, Permutation S1 (stack s) -> J s ->
+            scc_loop (S (length g)) g vs s = Some s' ->
+            exists S1' j', py_for body vs (mk_gen_scc g (idx s) (indexof s) (lowlink s) (rev (stack s)) S1 (comps s) j)
+              = Some (mk_gen_scc g (idx s') (indexof s') (lowlink s') (rev (stack s')) S1' (comps s') j')).
+  { induction vs as [|v vs IH]; intros Hincl s s' S1 j HP HJ Hs.
+    - cbn in Hs. injection Hs as <-. exists S1, j. reflexivity.
+    - cbn [scc_loop] in Hs. cbn [py_for]. unfold body at 1. scc_norm.
+      assert (Hincl' : incl vs (verts g)). { intros x Hx. apply Hincl. right. exact Hx. }
+      rewrite py_dmem_get.
+      destruct (get (indexof s) v) as [iv|] eqn:Ev.
+      + cbn [negb]. apply IH; auto.
+      + cbn [negb].
+        destruct (visit (S (length g)) g v s) as [sv|] eqn:Hv; [|discriminate].
+        assert (Hvin : In v (verts g)). { apply Hincl. left. reflexivity. }
+        assert (HRv : R g (mk_gen_scc g (idx s) (indexof s) (lowlink s) (rev (stack s)) S1 (comps s) v) s).
+        { exists S1, v. split; [reflexivity | exact HP]. }
+        assert (Hnv : ~ vis s v). { unfold vis. rewrite Ev. tauto. }
+        destruct (sim_all (S (length g)) v s sv _ Hvin HRv HJ Hnv Hv)
+          as (o' & Hcall & (S2 & j2 & -> & HP2) & HJ2 & _).
+        rewrite Hcall. apply IH; auto. }
+  change (py_keys g) with (verts g).
+  destruct (Hloop (verts g) (incl_refl _) init_st sf [] 0) as (S1 & j1 & H); auto.
+  { split; [constructor | split; [intros x [] |]]. intros x Hx. exfalso. apply Hx. reflexivity. }
+  cbn [init_st idx indexof lowlink stack comps rev] in H. rewrite H. reflexivity.
+Qed.
+End Sim.
+
+Theorem gen_scc_refines g : closed g = true -> gen_scc g = scc g.
+Proof. exact (gen_scc_refines_closed g). Qed.
